@@ -27,10 +27,11 @@ K_NAME = ('K_graph (extracted Graph.symbols_to_graph_M on the real Symbol list v
 RULE = ('fixed corpus (traps: names with keyword prefixes, a name used as variable and function, quoted / backticked period indexes, '
         'verbatim fragments, conditionals, self reference, lead on the left-hand side); programs of 1-4 equations rendered from random '
         'syntax trees (variables / {parameters} / <errors> with offsets in -3..3 and named periods, + - * / ** unary minus, '
-        'exp log max min abs np.sqrt, conditional expressions, parentheses) under a random layout (blanks, [0], blanks inside brackets, '
+        'exp log max min abs np.sqrt, conditional expressions, parentheses; some statements are tuple assignments `Y1,Y2[k] = e1, e2`) under a random layout (blanks, [0], blanks inside brackets, '
         'continuation lines inside parentheses, comments, blank lines; rarely a blank before the index bracket = finding #20); '
         'scripts of the parser_common generator and their mutations.  Every accepted case: graph of the real Symbol list vs the '
-        'extracted model; every equation executed in isolation on 3 random data vectors with recording arrays, and once more per '
+        'extracted model; symbols_to_graph called again on the same list and on an equal copy after the caller edited the graph it was given '
+        '(the answers must equal the first); every equation executed in isolation on 3 random data vectors with recording arrays, and once more per '
         '(series, offset) of the model with that cell perturbed.  Non-trivial = accepted, at least one equation with a variable-like '
         'in-edge; distinct by hash of the case.')
 TRUSTED = ['extraction of Graph.symbols_to_graph_M / Graph.nx_edges / GTokenise.tokenise to OCaml (ExtrOcamlBasic + ExtrOcamlString only) and coq/Extract/Graph/driver.ml',
@@ -311,7 +312,21 @@ def gen_prog(rng, plain=False):
         flags.add('maybe-variable-and-function')
     lay = Layout(rng, plain)
     lines, ref = [], []
-    for y in lhss:
+    todo = list(lhss)
+    while todo:
+        y = todo.pop(0)
+        if todo and not plain and rng.random() < 0.08:
+            # a tuple assignment `Y1,Y2[k] = rhs1, rhs2` (no blank on the left: equation_re wants \S+): every target gets every edge
+            y2 = todo.pop(0)
+            t1, t2 = gen_tree(rng, names), gen_tree(rng, names)
+            l1, l2 = rng.choice([0, 0, 0, 1, -1]), rng.choice([0, 0, 0, 1, -1])
+            lhs_txt = ','.join(n + (('[%d]' % k) if (k != 0 or rng.random() < 0.15) else '') for n, k in ((y, l1), (y2, l2)))
+            line = lhs_txt + rng.choice([' = ', '=', ' =', '= ']) + lay.expr(t1, top=True).strip(' \t') + rng.choice([', ', ',', ' , ']) + lay.expr(t2, top=True).strip(' \t')
+            lines.append(line)
+            deps = sorted(set(tree_deps(t1, [])) | set(tree_deps(t2, [])))
+            for n, k in ((y, l1), (y2, l2)):
+                ref.append({'lhs': term_id(n, k), 'deps': deps, 'cond': tree_has_if(t1) or tree_has_if(t2)})
+            continue
         tree = gen_tree(rng, names)
         ly = rng.choice([0, 0, 0, 0, 0, 0, 1, -1])
         lhs_txt = y + (('[%d]' % ly) if (ly != 0 or rng.random() < 0.15) else '')
@@ -345,6 +360,7 @@ CORPUS = [
     'Y = max(X, Z[-2]) + min (W, 1)', 'Y = np.sqrt(X) + abs(-Z)', 'Y = <e> + {a}[-1] + < eps >[ 2 ]', 'Y = 2e5 * X', 'Y = X.T',
     'Y = X\nZ = Y[-1]\nW = Z + Y', 'Y = X\n```\nfoo = 1\n```\nZ = W', '`x = 1`', '', 'Y = a < b > c', 'Y = 1 if{a}else 2', 'Y = X==Z',
     'Y = X\nY = X', 'Y = f(X) + g.h(Z)', '```\npass\n```\nY = X', 'Y = X\n`k = 1`', '```\nx = Y[t] + 1\nz = 2\n```\nY = X + Z', '`pass`', '```\npass\n```', 'Z==()', 'Y[=1]', 'Y = (X +\n  Z)', '(Y =\n X)', 'Y = X[ -1 ]+X[+1]',
+    'S,D = X, Y[-1]', 'S,D = X, Y[-1]\nQ = S + D[-1]', 'A,B[1],C = X, Y, Z[1] + A[-1]', 'S,D = D[-1], S[-1]',     # tuple targets: every target is a node with all edges
     'b = {as} * X\nY = <if> + b[-1]',     # terms named like reserved words (C14|fixed-point|reserved-word-name): the graph is still exact
 ]
 
@@ -454,7 +470,10 @@ def _isolated(symbols, seed):
         except _NoAssignment:
             entry = {'lhs': lhs, 'skip': 'no-assignment'}      # e.g. `Z==()`: accepted as an equation, but the code is a comparison
         except Exception as e:      # noqa: BLE001 - the class is the observation
-            entry = {'lhs': lhs, 'exc': type(e).__name__}
+            if isinstance(e, (ZeroDivisionError, OverflowError)) or (isinstance(e, TypeError) and 'complex' in str(e)):
+                entry = {'lhs': lhs, 'skip': 'arithmetic'}      # e.g. `(-0.5)**0.5` is complex: nothing to do with the graph
+            else:
+                entry = {'lhs': lhs, 'exc': type(e).__name__}
         res.append(entry)
     return res
 
@@ -482,6 +501,21 @@ def impl(case):
     out['extra_attrs'] = sorted({k for _n, d in G.nodes(data=True) for k in d if k != 'equation'})
     out['edges'] = [[a, b] for a, b in G.edges()]
     out['eqs'] = [[x.name, x.equation] for x in symbols if x.type.name == 'ENDOGENOUS']
+    # history inside one process: the caller edits the graph it was given, then asks again (same list, and an equal copy of it)
+    try:
+        first = (out['nodes'], out['edges'])
+        G.add_edge('__canary__', out['nodes'][0][0] if out['nodes'] else '__other__')
+        if len(out['nodes']) > 1:
+            G.remove_node(out['nodes'][-1][0])
+        again = []
+        for sy in (symbols, list(symbols)):
+            G2 = fsic.tools.symbols_to_graph(sy)
+            snap = ([[n, d.get('equation')] for n, d in G2.nodes(data=True)], [[a, b] for a, b in G2.edges()])
+            again.append('same' if snap == first else snap)
+            G2.add_node('__canary2__')
+        out['again'] = again
+    except BaseException as e:      # noqa: BLE001
+        out['again'] = ['raised ' + type(e).__name__]
     try:
         out['iso'] = _isolated(symbols, case.get('seed', 0))
     except BaseException as e:      # noqa: BLE001
@@ -580,6 +614,10 @@ def oracle(case, obs):
         else:
             add('graph-raises', 'symbols_to_graph raised ' + str(obs.get('graph')) + ' on the symbols of an accepted script')
         return fails
+    for j, a in enumerate(obs.get('again', [])):
+        if a != 'same':
+            add('graph-not-fresh', 'after the caller edited the returned graph, call %d of symbols_to_graph on the same symbols gives %s, the first call gave %s'
+                % (j + 2, json.dumps(a)[:160], json.dumps([obs['nodes'], obs['edges']])[:160]))
     nodes = {n: a for n, a in obs['nodes']}
     edges = {(a, b) for a, b in obs['edges']}
     if len(obs['edges']) != len(edges) or len(obs['nodes']) != len(nodes):
@@ -594,7 +632,7 @@ def oracle(case, obs):
         for m in TERM_ID.finditer(e.split('=', 1)[0]):
             lhs_of.setdefault(m.group(0), []).append(e)
     for lhs, es in lhs_of.items():
-        if len(es) == 1 and nodes.get(lhs, None) != es[0]:
+        if len(set(es)) == 1 and nodes.get(lhs, None) != es[0]:
             add('lhs-node', 'left-hand side %s does not carry its equation %r (node attribute %r)' % (lhs, es[0], nodes.get(lhs)))
     for n, a in nodes.items():
         if a is not None and varlike(n) and TERM_ID.fullmatch(n) and n not in lhs_of:
